@@ -5,9 +5,12 @@ PROP = {
         {"tag": "c15", "bin": "c15"},
         # the clause the hub cannot express: multi-MiB boxed constructions on a 256 KiB stack (debug build)
         {"tag": "c15big", "bin": "c15", "args": ["--big"], "model": False, "timeout": 300},
+        # caller program compiled separately: box_arr! as a boxed constructor (empty list, generic length, one
+        # evaluation of the repeat operand, 32 MiB)
+        {"tag": "c15call", "bin": "gcall", "no_default_features": True, "args": ["--prop", "C15"], "model": False},
     ],
     "mismatch_is_failing": True,
-    "rule": "every operation of src/impl_alloc.rs and box_arr! (18 operation codes) x three element kinds (8-byte tracked, zero-sized tracked, u32) x N in {0,1,2,3,8,16,33,1024} x source lengths {0, N-1, N, N+1} x spare capacity {0,1,5} (Vec sources) x size hints {exact, absent} (iterator sources) x items taken {0, N/2, N} (boxed into_iter); plus seeded source lengths / spare capacities around every N; plus (run c15big, no model) six constructions of 4-32 MiB arrays on a thread with a 256 KiB stack. distinct = distinct CASE lines; non-trivial = N > 0",
+    "rule": "every operation of src/impl_alloc.rs and box_arr! (18 operation codes) x three element kinds (8-byte tracked, zero-sized tracked, u32) x N in {0,1,2,3,8,16,33,1024} x source lengths {0, N-1, N, N+1} x spare capacity {0,1,5} (Vec sources) x size hints {exact, absent} (iterator sources) x items taken {0, N/2, N} (boxed into_iter); plus seeded source lengths / spare capacities around every N; plus (run c15big, no model) six constructions of 4-32 MiB arrays on a thread with a 256 KiB stack. Run c15call: a separately compiled caller program using box_arr! as a boxed constructor (the empty list, a trailing comma, lengths that are type parameters of the caller, a repeat operand with a side effect evaluated once, a 32 MiB array handed on to into_vec). distinct = distinct CASE lines; non-trivial = N > 0",
     "nontrivial": lambda case, obs: case.split()[2] != "0",
     "manifest": {
         "design_ref": "DESIGN.md section 7, C15",
